@@ -11,6 +11,11 @@ Fixpoint codes (s : string) : list Z :=
   | String a r => Z.of_N (N_of_ascii a) :: codes r
   end.
 
+(* constructors used by the generated case files (plain applications parse faster than nested
+   pair notations) *)
+Definition fld (fi : finfo) (v : tval) : finfo * tval := (fi, v).
+Definition en (n : list Z) (v : Z) : list Z * Z := (n, v).
+
 (* ---- (a) integer codec and tokenizer, directly ---- *)
 Inductive ccase :=
 | CEnc (t : ity) (v base : Z) (g : bool)
